@@ -94,9 +94,13 @@ pub const SET_EXPORT_CAP: usize = 100_000;
 
 impl Ctx {
     pub fn new(prop: &str, tier: Tier, seed: u64, shard: u64, nshards: u64, out: Option<String>) -> Ctx {
-        let progress = out
-            .as_ref()
-            .and_then(|o| Progress::open(&format!("{o}.progress"), 1 << 16));
+        // (no mmap under Miri)
+        let progress = if cfg!(miri) {
+            None
+        } else {
+            out.as_ref()
+                .and_then(|o| Progress::open(&format!("{o}.progress"), 1 << 16))
+        };
         let beat = Arc::new(AtomicU64::new(0));
         Ctx {
             prop: prop.to_string(),
